@@ -970,6 +970,12 @@ def run(ctx: C.Ctx):
     for src, origin in c10_purity.extra_corpus(rng, thorough):
         devs.append({"src": src, "feats": {}, "origin": origin, "in_guard": True})
 
+    # functions / expressions that JOIN values of several types (a value chosen from a set of type labels, not an order of emitted
+    # items): harness/props/c10_choice.py - through every oracle below, and under further hash seeds
+    from harness.props import c10_choice
+    for src, origin in c10_choice.join_corpus(rng, thorough):
+        devs.append({"src": src, "feats": {}, "origin": origin, "in_guard": True})
+
     progs = skels + devs
     sources = [p["src"] for p in progs]
 
@@ -1044,6 +1050,14 @@ def run(ctx: C.Ctx):
                            "emitted C++ depends on the iteration order of the transpiler's sets")
                 break
     dist["programs_under_the_byte_identity_oracle"] = n_in_guard
+    extra_seeds = list(range(4, 12)) + ([rng.randrange(12, 2 ** 32 - 1) for _ in range(8)] if thorough else [])
+    evaluations += c10_choice.run_extra_seeds(ctx, C, transpile, progs, seeds[0], extra_seeds)
+    dist["type_join_programs"] = {"programs": sum(1 for p in progs if p["origin"].startswith("join")), "extra_hash_seeds": extra_seeds,
+                                  "by_kind": {k: sum(1 for p in progs if p["origin"].startswith("join " + k)) for k in
+                                              ("returns", "neighbours", "list-display", "ifexp", "branch-retype", "append", "signatures")},
+                                  "returns_of_two_or_more_list_types_and_no_scalar": sum(
+                                      1 for p in progs if p["origin"].startswith("join returns") and len(set(p["origin"].split()[-1].split("+"))) > 1
+                                      and all(x.startswith("list") for x in p["origin"].split()[-1].split("+")))}
     dist["of_which_outside_the_pre_repair_guard(several new names in one branch)"] = {
         "skeleton": sum(1 for p in skels if p.get("model_ok") is False),
         "mixed": sum(1 for p in devs if p.get("model_ok") is False)}
@@ -1290,6 +1304,15 @@ def run(ctx: C.Ctx):
     dist["name_collisions"] = dist_roles
 
     _tick("role collisions")
+    # ------------------------------------------------------------------ property oracle 3b: ordered pairs (A, B) in one process where A
+    # BINDS a name that is an element / key of a module-level table meant to be a constant and B uses the name in its builtin meaning
+    ev_sp, nt_sp, dist_sp = c10_choice.run_state_pairs(ctx, C, seeds[0], thorough)
+    evaluations += ev_sp
+    dist["builtin_name_pairs"] = dist_sp
+    n_join = 0
+    if have_model:
+        n_join, dist["return_type_join_correspondence"] = c10_choice.run_join_correspondence(ctx, C, seeds[0])
+    _tick("builtin-name pairs")
     # ------------------------------------------------------------------ property oracle 4: twin families (one call in every spelling
     # of the same values / at every depth) in every rotation in one process; correspondence 5: the emitter's literal helpers
     ev_tw, nt_tw, dist_tw = c10_twins.run_twins(ctx, C, seeds[0])
@@ -1323,10 +1346,10 @@ def run(ctx: C.Ctx):
     dist["origins"] = origins
     multi = sum(1 for d in devs if max(len(v) for v in d.get("sorted_obs", {"x": []}).values() or [[]]) >= 2)
     ctx.coverage.update({
-        "evaluations": evaluations + n_corr + n_prom + n_sorted + n_helper,
+        "evaluations": evaluations + n_corr + n_prom + n_sorted + n_helper + n_join,
         "distinct_nontrivial": len({p["src"] for p in progs if p["origin"] != "device"}
-                                   & {s["src"] for s in skels if sum(1 for _ in _iter_hoists(s.get("model0", {}))) > 0}) + multi + n_prom + nt_roles + nt_tw + nt_pu,
-        "rule": "skeleton programs: templates (k = 0..6 names first assigned in an if / if-else / if-elif-else / while / for / try body, at top level, in a function, in the main loop, nested) + seeded random nested programs; device programs: random subsets of every device class with 0..6 instances, callbacks, lists, multi-signature functions, tuple swaps; mixed = both. Every program is transpiled in one subprocess per hash seed and per dictated set order (the name `set` of parser.py/emitter.py bound to a subclass iterating sorted / reverse sorted / in a keyed pseudo-random order), then in one process twice in a row, in reverse order between unrelated programs, shuffled, and (a sample) in fresh processes; sha256 of the text is compared. Name collisions (c10_roles.py): for every ordered pair (a, b) of 25 roles an identifier can have, with a name of its own, the sessions `A B B'` / `all A, then B B' reversed` against `B B'` alone (A = name in role a, B = same name in role b with all probes of b, B' = B + one probe of a); 60 (240) pool programs giving 2-4 of 6 pool names random roles, in 3 (6) orders in one process and after a module reset; parse/emit interleavings (p_i p_j e_j e_i, p_i p_j e_i e_j e_i, p_i e_i e_i, p_i t_j e_i); 4 concurrent threads; 220 (900) + 60 device-registry programs of the DevSession fragment in two orders, compared with transl_dev. Half of the random skeleton programs and most templates put several new names into one branch (the region the guard of the repaired finding F-C10-promotion-order used to exclude; counted in distribution). Near-collisions (c10_twins.py): 36 (150) collision programs + 24 (90) skeleton programs whose names are a NAME FAMILY (2-6 identifiers that tie under leading zeros / natural order / case / underscores / length / prefix / first-and-last character keys; every family keeps one pair of its first kind) in 2-7 of the sets behind sorted() (buttons with one callback, LCDs with identical animations, ultrasonics, names first assigned in if / if-else / elif / try / while / for bodies at top level, in a function, in the main loop) - they go through every oracle above; TWIN FAMILIES: for each of 26 device methods every distinct spelling (int, float, bool, folded constants, defaults omitted, all positional) at 2 (7) depths, one spelling at 4 (7) depths on two device names, the call with one argument changed; one pin in several device classes; plain statements with equal-valued literals; one source in 11 white-space / comment / line-end variants - 7 sessions in one process each (rotation r starts every family at its r-th member, odd rotations walk the families backwards), a program's text must be the same in all of them and after a module reset (12 (60) sampled); a difference is confirmed and shrunk in fresh processes. Helper sessions: 30 (120) random + 7 fixed sessions of 2-4 programs of 1-5 calls of _emit_duration_ms / _format_float with ints, whole and fractional dyadic floats, bools, negative values and expression text, one session per module reset, against MemoSession.session under the regenerated cache table. Emit purity (c10_purity.py): every accepted program above + 4 glyph scripts (setup / loop / function / branch) + a break/continue script + the statement catalog of harness/c06_pairs.py in 6 (13, twice) kinds of block (all 65 IR node classes reached, measured): p2 = parse(s); p = parse(s); emit(p); emit(p); emit(parse(other)); emit(p); emit(parse(s)); emit(p2) - one sha256; a failing catalog script is reduced by ddmin; 30 (120) glyph sessions (1-3 scripts, 1-2 displays, rows with bits above 5 / negative / float spellings, random parse/emit op sequences) against EmitSession.esession. Rejected parses: 28 (112) helper families of 14 shapes, each V with 1-2 poisoned twins, sessions V P V P P V | reset | P P V; 14 (112) V's aborted at the quarter (eighth) points and 1 (3) random points of their call sequence by an injected BaseException, then transpiled again; 40 (160) + 3 sessions of 2-5 single-level helper programs (40 % rejected) against VariantSession.vsession. 14 (42) helper programs and 6 (24) glyph scripts also join the main corpus (hash seeds, dictated orders, environments, sessions). Non-trivial = programs that hoist at least one declaration, every twin family, every role pair, pool program and accepted device-registry program, device programs whose sorted sites have >= 2 elements, and every dictated-order promotion case.",
+                                   & {s["src"] for s in skels if sum(1 for _ in _iter_hoists(s.get("model0", {}))) > 0}) + multi + n_prom + nt_roles + nt_tw + nt_pu + nt_sp,
+        "rule": "skeleton programs: templates (k = 0..6 names first assigned in an if / if-else / if-elif-else / while / for / try body, at top level, in a function, in the main loop, nested) + seeded random nested programs; device programs: random subsets of every device class with 0..6 instances, callbacks, lists, multi-signature functions, tuple swaps; mixed = both. Every program is transpiled in one subprocess per hash seed and per dictated set order (the name `set` of parser.py/emitter.py bound to a subclass iterating sorted / reverse sorted / in a keyed pseudo-random order), then in one process twice in a row, in reverse order between unrelated programs, shuffled, and (a sample) in fresh processes; sha256 of the text is compared. Name collisions (c10_roles.py): for every ordered pair (a, b) of 25 roles an identifier can have, with a name of its own, the sessions `A B B'` / `all A, then B B' reversed` against `B B'` alone (A = name in role a, B = same name in role b with all probes of b, B' = B + one probe of a); 60 (240) pool programs giving 2-4 of 6 pool names random roles, in 3 (6) orders in one process and after a module reset; parse/emit interleavings (p_i p_j e_j e_i, p_i p_j e_i e_j e_i, p_i e_i e_i, p_i t_j e_i); 4 concurrent threads; 220 (900) + 60 device-registry programs of the DevSession fragment in two orders, compared with transl_dev. Half of the random skeleton programs and most templates put several new names into one branch (the region the guard of the repaired finding F-C10-promotion-order used to exclude; counted in distribution). Near-collisions (c10_twins.py): 36 (150) collision programs + 24 (90) skeleton programs whose names are a NAME FAMILY (2-6 identifiers that tie under leading zeros / natural order / case / underscores / length / prefix / first-and-last character keys; every family keeps one pair of its first kind) in 2-7 of the sets behind sorted() (buttons with one callback, LCDs with identical animations, ultrasonics, names first assigned in if / if-else / elif / try / while / for bodies at top level, in a function, in the main loop) - they go through every oracle above; TWIN FAMILIES: for each of 26 device methods every distinct spelling (int, float, bool, folded constants, defaults omitted, all positional) at 2 (7) depths, one spelling at 4 (7) depths on two device names, the call with one argument changed; one pin in several device classes; plain statements with equal-valued literals; one source in 11 white-space / comment / line-end variants - 7 sessions in one process each (rotation r starts every family at its r-th member, odd rotations walk the families backwards), a program's text must be the same in all of them and after a module reset (12 (60) sampled); a difference is confirmed and shrunk in fresh processes. Helper sessions: 30 (120) random + 7 fixed sessions of 2-4 programs of 1-5 calls of _emit_duration_ms / _format_float with ints, whole and fractional dyadic floats, bools, negative values and expression text, one session per module reset, against MemoSession.session under the regenerated cache table. Emit purity (c10_purity.py): every accepted program above + 4 glyph scripts (setup / loop / function / branch) + a break/continue script + the statement catalog of harness/c06_pairs.py in 6 (13, twice) kinds of block (all 65 IR node classes reached, measured): p2 = parse(s); p = parse(s); emit(p); emit(p); emit(parse(other)); emit(p); emit(parse(s)); emit(p2) - one sha256; a failing catalog script is reduced by ddmin; 30 (120) glyph sessions (1-3 scripts, 1-2 displays, rows with bits above 5 / negative / float spellings, random parse/emit op sequences) against EmitSession.esession. Rejected parses: 28 (112) helper families of 14 shapes, each V with 1-2 poisoned twins, sessions V P V P P V | reset | P P V; 14 (112) V's aborted at the quarter (eighth) points and 1 (3) random points of their call sequence by an injected BaseException, then transpiled again; 40 (160) + 3 sessions of 2-5 single-level helper programs (40 % rejected) against VariantSession.vsession. 14 (42) helper programs and 6 (24) glyph scripts also join the main corpus (hash seeds, dictated orders, environments, sessions). Type joins (c10_choice.py): functions whose return statements yield values of two or three different types on different paths (every combination of list element types without a scalar in both orders; 34 (all) other combinations of int / bool / float / String / list[...] ; six control shapes; the result as a global, twice, through a second function, in the main loop), list displays / conditional expressions / append / branch-wise re-typing / several call signatures of mixed scalar types - in the main corpus and under 8 (16) further hash seeds. Builtin-name pairs (c10_choice.py): for each of len abs max min int float bool str, 2 (7) melody names, digital_read / analog_read, 1 (4) LCD progress styles, 2 (4) LCD animation names: A binds the name in 8 of 16 (all 16) roles (the A's the parser rejects included), B uses it in its builtin meaning on literals in 7 positions; one process: reset, B, (A_role, B)* and p A, p B, e A, e B; B must have the text it has alone; a failing pair is confirmed and B shrunk to one position in fresh processes. Non-trivial = programs that hoist at least one declaration, every twin family, every role pair, pool program and accepted device-registry program, device programs whose sorted sites have >= 2 elements, and every dictated-order promotion case.",
         "samples": [skels[0]["src"], skels[len(skels) // 2]["src"], devs[0]["src"][:1500]],
         "distribution": dist,
         "guard": "none: every generated program is under the byte-identity oracle and the correspondence (C10_order_independent is unconditional). F-C10-promotion-order is repaired by a fix: commit (known_findings.d/C10.json kind=fixed) - a fixed entry suppresses nothing: on a tree without the sorted() calls C10_no_unsorted_set_iteration / C10_repaired_sites_sorted do not check, the witness replay fails and is reported as a VIOLATION",
@@ -1342,7 +1365,7 @@ def run(ctx: C.Ctx):
                        "rejected parses: the model (Lang/VariantSession.v) covers one-parameter helpers returning the parameter / literals, defined before column-0 calls, no recursion (the guard's own purpose), no redefinition; nested and recursive helpers, calls before the def, calls inside loops / branches / callbacks, two-parameter helpers are covered by the poisoned-twin oracle only; state other than the variant guard left by a rejected parse is covered by the oracle and the module-state inventory only",
                        "aborted transpilations: exceptions are injected at function-call boundaries of parser.py / emitter.py only (not between two statements of one function), from a trace function, in helper programs only",
                        "platform differences other than hash seeds (one CPython build here)"],
-        "trusted_base": C.COMMON_TRUSTED + ["harness/props/c10_twins.py (name families, twin families, rotating sessions, reading the helper results back)", "harness/props/c10_roles.py (role templates, session scripts, fresh-process confirmation of a failing pair)","harness/gen/setsites.py (syntactic set-kind inference over parser.py/emitter.py, fail-closed)", "harness/gen/purity.py (syntactic inventory of lazy values, IR constructor arguments, emitter statements changing their argument, add/remove guards; fail-closed)", "harness/props/c10_purity.py (IR coverage corpus from harness/c06_pairs.py, poisoned twins, glyph / helper sessions, reading glyph arrays / function definitions / global types back from the text)",
+        "trusted_base": C.COMMON_TRUSTED + ["harness/props/c10_twins.py (name families, twin families, rotating sessions, reading the helper results back)", "harness/props/c10_choice.py (type-join programs, builtin-name pairs, fresh-process confirmation and shrinking of a failing pair)", "harness/props/c10_roles.py (role templates, session scripts, fresh-process confirmation of a failing pair)","harness/gen/setsites.py (syntactic set-kind inference over parser.py/emitter.py, fail-closed)", "harness/gen/purity.py (syntactic inventory of lazy values, IR constructor arguments, emitter statements changing their argument, add/remove guards; fail-closed)", "harness/props/c10_purity.py (IR coverage corpus from harness/c06_pairs.py, poisoned twins, glyph / helper sessions, reading glyph arrays / function definitions / global types back from the text)",
                                             "harness/impl/c10_impl.py (runs parse()+emit(); OrderedNames dictates the iteration order of `var_declared - base`; AdvSet dictates the iteration order of every set built through the name `set` in parser.py/emitter.py - set displays/comprehensions keep CPython's order)",
                                             "PYTHONHASHSEED as the only source of set-order variation exercised"],
     })
